@@ -23,6 +23,7 @@ more spaces continues the previous clause):
   iface <Iface>.<method>              start of an interface-method contract
   lemma <name>(<params>) : <expr>
   prop <id>[,<id>...]                 properties the following function contracts serve
+  case <name>                         behaviour of the current function (own requires/ensures)
 """
 import os
 import re
@@ -76,6 +77,8 @@ class FuncContract:
         self.seed_imports = {}
         self.inline = False
         self.opts = {}
+        self.case = None
+        self.has_cases = False
 
     def loop(self, k):
         if k not in self.loops:
@@ -266,6 +269,27 @@ def parse_file(path, cs, repo='/repo', default_pkg=None):
             cur.is_iface = (kw == 'iface')
             cs.funcs[key] = cur
             curlemma = None
+        elif kw == 'case':
+            # case <name>: a behaviour of the current function; the clauses given so far are
+            # shared, the following ones (up to the next case/func) belong to this behaviour.
+            # Each behaviour is verified on its own under its own precondition.
+            import copy as _copy
+            base = cs.funcs[cur.key.split('#')[0]]
+            if not getattr(base, 'has_cases', False):
+                base.has_cases = True
+                base.base_snapshot = _copy.deepcopy(base)
+            cname = rest.strip()
+            ckey = base.key + '#' + cname
+            if ckey in cs.funcs:
+                raise ValueError('%s:%d: duplicate case %s' % (path, n, ckey))
+            cc = _copy.deepcopy(base.base_snapshot)
+            cc.key = ckey
+            cc.case = cname
+            cc.has_cases = False
+            cc.line = n
+            cc.opts.setdefault('uncovered', '100000')
+            cs.funcs[ckey] = cc
+            cur = cc
         elif kw == 'assumed':
             cur.assumed = True
         elif kw == 'pure':
